@@ -2068,6 +2068,43 @@ def f7(prog, tier="quick"):
     inst.append((key2, {"attributes": n2}))
     if bad2:
         findings.append({"key": key2, "where": "libzwerg/" + f["l"], "msg": bad2, "detail": None})
+    # the location attributes of DWARF 2-5 (the attributes of class exprloc / loclist that describe where something lives) in a block or
+    # a section-offset form: the value is a location list - one element per address range - not a byte sequence or a number
+    LOCATION_ATTRS = ("location", "data_member_location", "data_location", "frame_base", "return_addr", "segment", "static_link", "use_location", "vtable_elem_location")
+    ev.hooks["std::make_unique<(anonymous namespace)::locexpr_producer*"] = lambda ev_, o, a: ("locexpr",)
+    ev.hooks["std::make_unique<locexpr_producer*"] = lambda ev_, o, a: ("locexpr",)
+    key3 = "F7:location"
+    bad3 = None
+    n3 = 0
+    for nm in LOCATION_ATTRS:
+        if nm not in A:
+            raise Broken("DW_AT_%s is not in the system dwarf.h" % nm)
+        for fm in ("block1", "sec_offset"):
+            d = Node("variable", "v")
+            d.unit = None
+            d.attrs[A[nm]] = (F[fm], 0)
+            attr = Struct("Dwarf_Attribute", {})
+            fill_attr(attr, d, A[nm])
+            attr.raw = Raw(0)
+            vd = Obj("value_die")
+            vd.m_die = mkdie(d)
+            try:
+                ev.steps = 0
+                r = ev.call(f, None, [attr, vd, Sym.of("dwctx")])
+                got = r[0] if isinstance(r, tuple) and r else repr(r)
+            except Thrown as x:
+                got = "an error (%s)" % x
+            except OutOfBounds as x:
+                raise Broken("handle_at_dependent_value cannot be evaluated for DW_AT_%s: %s" % (nm, x))
+            except (AttributeError, TypeError):
+                # the summaries of the generic number / block path were handed this attribute: it fell out of the location cases
+                got = "a plain number or a raw block (the generic path)"
+            n3 += 1
+            if got != "locexpr" and bad3 is None:
+                bad3 = "DW_AT_%s in DW_FORM_%s is decoded as %s; it is a location attribute: its value is a list of location expressions per address range (`elem`, `address`, `?OP_x` apply to it)" % (nm, fm, got)
+    inst.append((key3, {"attributes": n3}))
+    if bad3:
+        findings.append({"key": key3, "where": "libzwerg/" + f["l"], "msg": bad3, "detail": None})
     return inst, findings
 
 
@@ -2715,4 +2752,63 @@ def m3(prog):
             findings.append({"key": key, "where": "libzwerg/" + nxt[0]["l"], "msg": bad, "detail": None})
     if n_run < 8:
         raise Broken("only %d traversals evaluated (floor 8)" % n_run)
+    return inst, findings
+
+
+def f9(prog):
+    """fix_dwarf_formsdata interpreted from source with typed integers: libdw hands back the datum of a fixed-width form zero-extended
+    (the elfutils behaviour the function compensates) or already sign-extended (newer elfutils); in both cases the result must be the
+    datum read as a two's-complement number of the form's own width - 1, 2, 4 or 8 bytes - at every boundary value."""
+    from cxxobj import CxxEvaluator, Struct, VarPtr, OutOfBounds
+    from absint import Thrown
+    inst, findings = [], []
+    f = prog.func_opt("(anonymous namespace)::fix_dwarf_formsdata")
+    if f is None or f.get("body") is None:
+        raise Broken("anchor fix_dwarf_formsdata vanished")
+    forms = {}
+    for e in prog.enums.values():
+        if e["file"] == "/usr/include/dwarf.h":
+            for c in e["consts"]:
+                if c["n"] in ("DW_FORM_data1", "DW_FORM_data2", "DW_FORM_data4", "DW_FORM_data8", "DW_FORM_sdata"):
+                    forms[c["n"]] = c["v"]
+    if len(forms) != 5:
+        raise Broken("DW_FORM constants vanished")
+    cur = {}
+
+    def formsdata(ev, o, a):
+        a[1].store(cur["raw"])
+        return 0
+    ev = CxxEvaluator({"dwarf_formsdata": formsdata}, {}, prog=prog)
+    key = "F9:fix_dwarf_formsdata"
+    bad = None
+    n = 0
+    try:
+        for name, bits in (("DW_FORM_data1", 8), ("DW_FORM_data2", 16), ("DW_FORM_data4", 32), ("DW_FORM_data8", 64), ("DW_FORM_sdata", 64)):
+            full = (1 << bits) - 1
+            for u in sorted({0, 1, 0x7f, 0x80, 0xff, 0x100, 0x3e8, 0x7fff, 0x8000, 0xfffe, 0xffff, 0x12345, 0x7fffffff, 0x80000000, 0xffffffff, full, full >> 1, (full >> 1) + 1}):
+                if u > full:
+                    continue
+                want = u - (1 << bits) if u >> (bits - 1) else u
+                for raw in {u, want}:                      # zero-extended by libdw, or already sign-extended
+                    raw64 = raw if raw < (1 << 63) else raw - (1 << 64)
+                    cur["raw"] = raw64
+                    attr = Struct("Dwarf_Attribute", {"form": forms[name], "code": 0x1c, "valp": 1, "cu": None})
+                    box = Struct("box", {"v": None})
+                    ev.steps = 0
+                    rc = ev.call(f, None, [attr, VarPtr(lambda: box.v, lambda v: setattr(box, "v", v), "sval")])
+                    n += 1
+                    got = box.v
+                    if got is not None:
+                        got = int(got)
+                        if got >= 1 << 63:
+                            got -= 1 << 64
+                    if (rc != 0 or got != want) and bad is None:
+                        bad = "a %s datum with the bytes %#x (libdw hands back %d) is read as %s; as a %d-bit two's-complement number it is %d" % (name, u, raw64, got, bits, want)
+    except (OutOfBounds, Thrown) as x:
+        raise Broken("fix_dwarf_formsdata cannot be evaluated: %s" % x)
+    inst.append((key, {"evaluations": n}))
+    if n < 40:
+        raise Broken("only %d evaluations of fix_dwarf_formsdata (floor 40)" % n)
+    if bad:
+        findings.append({"key": key, "where": "libzwerg/" + f["l"], "msg": bad, "detail": None})
     return inst, findings
